@@ -11,8 +11,10 @@
    What is NOT proved here (level: partial): that the annotations (which step touches which location,
    which synchronisation orders what) are those of the Go code — the access-site tables (tie (i)) and
    the race-detector runs (tie (ii)) of the harness check that on every run — and the Go memory model
-   itself.  The model has ONE connection; connections share only the manager, whose map is touched by
-   the manager goroutine alone. *)
+   itself.  The first half of this file is about ONE connection (with the manager, the accepting goroutine
+   and the callers); the second half (C18_race_free_N) about any number of connections sharing the manager,
+   its registry and the accepting goroutine.  That a delivered message does not share memory with the
+   reader's receive buffer is C09's theorem, used here as the reason why LMsg n and LBuf are two locations. *)
 From Coq Require Import List Arith Bool String.
 From JT.Base Require Import Sched.
 From JT.Model Require Import Race RaceN.
@@ -40,33 +42,44 @@ Print Assumptions C18_discipline_sound.
 (* the three historical defects, each switched back on in the same model, each with a schedule
    that races (so [races] is not vacuously empty and the model is fine enough to see them) *)
 Theorem C18_refuted_clear_handles :
-  races (trace (step {| v_clear_handles := true; v_log_serial := false; v_share_header := false |}) init
-           [Boot; RRead 0; RJoinSend 0; MJoin; RJoinAck; RPush 0; CCall 0; MWrite 0; RStop; MLeave; RStop2; WAct 0 true true])
+  races (trace (step {| v_clear_handles := true; v_log_serial := false; v_share_header := false; v_alias_buf := false |}) init
+           [Boot; RRead 0; RJoinSend 0; MJoin true; RJoinAck; RPush 0; CCall 0; MWrite 0; RStop; MLeave; RStop2; WAct 0 true true])
   = [{| r_loc := LHandles; r_first := TReader; r_second := TWriter |}].
 Proof. vm_compute. reflexivity. Qed.
 Print Assumptions C18_refuted_clear_handles.
 
 Theorem C18_refuted_log_serial :
-  races (trace (step {| v_clear_handles := false; v_log_serial := true; v_share_header := false |}) init
-           [Boot; RRead 0; RJoinSend 0; MJoin; RJoinAck; RPush 0; WMsg 0 None; RStop])
+  races (trace (step {| v_clear_handles := false; v_log_serial := true; v_share_header := false; v_alias_buf := false |}) init
+           [Boot; RRead 0; RJoinSend 0; MJoin true; RJoinAck; RPush 0; WMsg 0 None; RStop])
   = [{| r_loc := LSerial; r_first := TWriter; r_second := TReader |}].
 Proof. vm_compute. reflexivity. Qed.
 Print Assumptions C18_refuted_log_serial.
 
 Theorem C18_refuted_share_header :
-  races (trace (step {| v_clear_handles := false; v_log_serial := false; v_share_header := true |}) init
-           [Boot; RRead 0; RJoinSend 0; MJoin; CCall 0; MWrite 0; WAct 0 true true; RJoinAck])
+  races (trace (step {| v_clear_handles := false; v_log_serial := false; v_share_header := true; v_alias_buf := false |}) init
+           [Boot; RRead 0; RJoinSend 0; MJoin true; CCall 0; MWrite 0; WAct 0 true true; RJoinAck])
   = [{| r_loc := LMsg 0; r_first := TWriter; r_second := TReader |}].
 Proof. vm_compute. reflexivity. Qed.
 Print Assumptions C18_refuted_share_header.
+
+(* the fourth historical race (fix adede50, C09): delivered messages were views into the reader's receive
+   buffer, so the writer reading message 0 races with the reader's next Read.  In the model the message
+   memory LMsg n and the buffer LBuf are different locations BECAUSE parse() hands out copies (C09's theorems
+   C09_content_is_own / C09_stable: a delivered message owns its bytes); the variant puts the aliasing back *)
+Theorem C18_refuted_alias_buffer :
+  races (trace (step {| v_clear_handles := false; v_log_serial := false; v_share_header := false; v_alias_buf := true |}) init
+           [Boot; RRead 0; RPush 0; RRead 1; WMsg 0 None])
+  = [{| r_loc := LBuf; r_first := TReader; r_second := TWriter |}].
+Proof. vm_compute. reflexivity. Qed.
+Print Assumptions C18_refuted_alias_buffer.
 
 (* the same three schedules are race free in the repaired model (instances of C18_race_free, shown
    on concrete values) *)
 Example C18_same_schedules_repaired :
   races (trace (step repaired) init
-           [Boot; RRead 0; RJoinSend 0; MJoin; RJoinAck; RPush 0; CCall 0; MWrite 0; RStop; MLeave; RStop2; WAct 0 true true]) = [] /\
-  races (trace (step repaired) init [Boot; RRead 0; RJoinSend 0; MJoin; RJoinAck; RPush 0; WMsg 0 None; RStop]) = [] /\
-  races (trace (step repaired) init [Boot; RRead 0; RJoinSend 0; MJoin; CCall 0; MWrite 0; WAct 0 true true; RJoinAck]) = [].
+           [Boot; RRead 0; RJoinSend 0; MJoin true; RJoinAck; RPush 0; CCall 0; MWrite 0; RStop; MLeave; RStop2; WAct 0 true true]) = [] /\
+  races (trace (step repaired) init [Boot; RRead 0; RJoinSend 0; MJoin true; RJoinAck; RPush 0; WMsg 0 None; RStop]) = [] /\
+  races (trace (step repaired) init [Boot; RRead 0; RJoinSend 0; MJoin true; CCall 0; MWrite 0; WAct 0 true true; RJoinAck]) = [].
 Proof. vm_compute. auto. Qed.
 
 (* non-vacuity of the quantifier: in [cover_sched] no choice is skipped, every kind of step of the
@@ -80,6 +93,34 @@ Fixpoint all_enabled (s : st) (sched : list choice) : bool :=
 Example C18_cover_runs :
   all_enabled init cover_sched = true /\ List.length (trace (step repaired) init cover_sched) = 222.
 Proof. vm_compute. auto. Qed.
+
+(* a connection whose key is taken: the manager refuses, the reader is told and returns; it ends WITHOUT a
+   leave closure (fix 8f7d690: only a joined connection calls leave), as does one that never sent a message *)
+Example C18_refused_and_unjoined_end :
+  let refused := [Boot; RRead 0; RJoinSend 0; MJoin false; RJoinAck; RStop; WSeeStop; WExit] in
+  let unjoined := [Boot; RRead 0; RStop; WSeeStop; WExit] in
+  all_enabled init refused = true /\ all_enabled init unjoined = true /\
+  races (trace (step repaired) init refused) = [] /\
+  existsb (fun e => match e with ESend _ KLeave _ => true | _ => false end) (trace (step repaired) init refused) = false /\
+  existsb (fun e => match e with ESend _ KLeave _ => true | _ => false end) (trace (step repaired) init unjoined) = false /\
+  (* nothing else is enabled for a refused reader *)
+  all_enabled init [Boot; RRead 0; RJoinSend 0; MJoin false; RJoinAck; RRead 1] = false /\
+  all_enabled init [Boot; RRead 0; RJoinSend 0; MJoin false; RJoinAck; RPush 0] = false.
+Proof. vm_compute. repeat split. Qed.
+
+(* [performs g x w] - what tie (i) asks of the model for a code site - is membership in [model_acc], the
+   accesses along the one schedule [cover_sched].  That set is EXACT: no schedule of the model performs a
+   (goroutine class, location class, mode) outside it, and everything [performs] accepts is performed *)
+Theorem C18_model_acc_exact : forall sched a,
+  In a (acc_classes (trace (step repaired) init sched)) -> acc_in a = true.
+Proof. exact model_acc_exact. Qed.
+Print Assumptions C18_model_acc_exact.
+
+
+Theorem C18_performs_witness : forall g x w, performs g x w = true ->
+  exists sched w', In (g, x, w') (acc_classes (trace (step repaired) init sched)) /\ (w = true -> w' = true).
+Proof. exact performs_witness. Qed.
+Print Assumptions C18_performs_witness.
 
 (* tie (i): the code sites of the tree this was written against are annotated (the harness asks the
    same question for the CURRENT tree through the extracted [site_ok] on every run); a reader that
@@ -122,15 +163,15 @@ Theorem C18_disciplined_N : forall sched,
 Proof. exact nconn_disciplined. Qed.
 Print Assumptions C18_disciplined_N.
 
-(* non-vacuity: three connections interleaved (none of the 42 choices is skipped: 192 events); the shared
+(* non-vacuity: three connections interleaved (none of the 43 choices is skipped: 196 events; connection 2 is refused for its key and ends without a leave); the shared
    registry location is accessed on behalf of all three, always by NMgr; a defect in ONE connection among
    three is seen; and two goroutines of different connections touching one location WOULD be a race *)
 Definition three_conns : list (nat * choice) :=
-  [(0, Boot); (1, Boot); (2, Boot); (0, RRead 0); (1, RRead 0); (0, RJoinSend 0); (1, RJoinSend 0); (1, MJoin); (0, MJoin);
-   (2, RRead 5); (0, RJoinAck); (1, RJoinAck); (0, RPush 0); (1, RPush 0); (0, CCall 0); (1, CCall 0); (2, CCall 0);
+  [(0, Boot); (1, Boot); (2, Boot); (0, RRead 0); (1, RRead 0); (0, RJoinSend 0); (1, RJoinSend 0); (1, MJoin true); (0, MJoin true);
+   (2, RRead 5); (2, RJoinSend 5); (2, MJoin false); (2, RJoinAck); (0, RJoinAck); (1, RJoinAck); (0, RPush 0); (1, RPush 0); (0, CCall 0); (1, CCall 0); (2, CCall 0);
    (1, MWrite 0); (0, MWrite 0); (2, MWrite 0); (0, WMsg 0 None); (1, WAct 0 true true); (0, WAct 0 true true); (2, CRet 0);
    (1, RStop); (0, RRead 1); (1, MLeave); (0, RPush 1); (1, RStop2); (0, WMsg 1 (Some 0)); (1, TFire 0 true); (1, WSeeStop);
-   (0, CRet 0); (1, WStopOut 0); (1, CRet 0); (1, WExit); (0, TFire 0 false); (0, WCpl 0); (2, RStop); (2, MLeave); (2, RStop2);
+   (0, CRet 0); (1, WStopOut 0); (1, CRet 0); (1, WExit); (0, TFire 0 false); (0, WCpl 0); (2, RStop);
    (0, RStop)].
 
 Fixpoint n_enabled (s : nst) (sched : list (nat * choice)) : bool :=
@@ -143,12 +184,12 @@ Definition reg_touchers (tr : list nev) : list ntid :=
   flat_map (fun e : nev => match e with GAcc t NReg _ => [t] | _ => [] end) tr.
 
 Definition one_bad_of_three : list (nat * choice) :=
-  [(0, Boot); (1, Boot); (1, RRead 0); (1, RJoinSend 0); (0, RRead 0); (1, MJoin); (1, RJoinAck); (1, RPush 0); (1, CCall 0);
+  [(0, Boot); (1, Boot); (1, RRead 0); (1, RJoinSend 0); (0, RRead 0); (1, MJoin true); (1, RJoinAck); (1, RPush 0); (1, CCall 0);
    (1, MWrite 0); (1, RStop); (0, RPush 0); (1, MLeave); (1, RStop2); (1, WAct 0 true true)].
 
 Example C18_three_connections :
   n_enabled ninit three_conns = true /\
-  List.length (trace (nstep repaired) ninit three_conns) = 192 /\
+  List.length (trace (nstep repaired) ninit three_conns) = 196 /\
   nraces (trace (nstep repaired) ninit three_conns) = [].
 Proof. vm_compute. repeat split. Qed.
 
@@ -160,7 +201,7 @@ Proof. vm_compute. repeat split. Qed.
 
 (* connection 1 with clear(c.handles) back in stop while connection 0 goes on: the race is in connection 1 *)
 Example C18_one_bad_connection :
-  nraces (trace (nstep {| v_clear_handles := true; v_log_serial := false; v_share_header := false |}) ninit one_bad_of_three)
+  nraces (trace (nstep {| v_clear_handles := true; v_log_serial := false; v_share_header := false; v_alias_buf := false |}) ninit one_bad_of_three)
   = [{| gr_loc := NL 1 LHandles; gr_first := NT 1 TReader; gr_second := NT 1 TWriter |}].
 Proof. vm_compute. reflexivity. Qed.
 
